@@ -1,0 +1,6 @@
+//go:build !verif
+
+package bls
+
+// verifPark marks the points at which the KeyGen goroutine blocks (build tag verif). Without the tag it does nothing.
+func verifPark(uint16, string) {}
